@@ -322,6 +322,16 @@ func (c *Ctx) codecArms(u *FuncUnit) (arms map[string]*armFacts, hasDefault, def
 			if af.typ != nil {
 				arms[af.typ.String()] = af
 			}
+			// case uint16, uint32, uint64: one arm for several key types
+			if len(cc.List) > 1 {
+				for _, e := range cc.List {
+					if tv, ok := c.m.Info.Types[e]; ok && tv.IsType() && arms[tv.Type.String()] == nil {
+						cp := *af
+						cp.typ = tv.Type
+						arms[tv.Type.String()] = &cp
+					}
+				}
+			}
 		}
 		return false
 	})
@@ -402,6 +412,7 @@ func ruleR15(c *Ctx) {
 			case verdict.decided:
 				nInterp++
 				c.r.bad("R15", ikey, ipos, verdict.detail, props...)
+				continue // the interpreter's finding names the defect; the pattern clauses would only add guesses
 			default:
 				c.r.note("R15: %s[%s] not followed by the abstract interpreter (%s); pattern clauses only", name, ts, verdict.unknown)
 			}
